@@ -765,7 +765,8 @@ func StdUniverse() Universe {
 type Gen struct {
 	U          Universe
 	Rng        *lib.Rand
-	Discipline bool // C06: Notify after every Rx, Drain after every step
+	Discipline bool // C06: Notify after every Rx
+	ExplicitDrain bool // append an explicit D op after every step
 	now        int64
 }
 
@@ -862,7 +863,9 @@ func (g *Gen) History(n int) []string {
 				ops = append(ops, "N")
 			}
 		case r < 53:
-			ops = append(ops, "N")
+			if !g.Discipline { // a second Notify with an old frame is outside the property's discipline
+				ops = append(ops, "N")
+			}
 		case r < 62:
 			ip := g.anyIP()
 			if g.Rng.Chance(10) {
@@ -884,9 +887,47 @@ func (g *Gen) History(n int) []string {
 		default:
 			ops = append(ops, fmt.Sprintf("M,%d,%s,%s", g.Rng.Intn(5), IPTok(g.anyIP()), g.U.Names[g.Rng.Intn(len(g.U.Names))]))
 		}
-		if g.Discipline {
+		if g.Discipline && g.ExplicitDrain {
 			ops = append(ops, "D")
 		}
 	}
 	return ops
+}
+
+// PureHistory draws n units of the property's pure discipline: frame (R N), purge, Capture, Release
+// (no DHCP offers, so the DHCP path of Notify stays silent; the t6 histories cover it).
+func (g *Gen) PureHistory(n int) []string {
+	g.now = 0
+	var ops []string
+	for i := 0; i < n; i++ {
+		r := g.Rng.Intn(100)
+		switch {
+		case r < 70:
+			ops = append(ops, g.RxOp(), "N")
+		case r < 94:
+			ops = append(ops, fmt.Sprintf("P,%d", g.advance()))
+		case r < 98:
+			ops = append(ops, "C,"+MacTok(g.clientMAC()))
+		default:
+			ops = append(ops, "L,"+MacTok(g.clientMAC()))
+		}
+	}
+	return ops
+}
+
+// DrainShown drains the channel and prints the notifications (sorted by address when sorted is set).
+func (sm *Sim) DrainShown(sorted bool, pairs bool) string {
+	l := sm.Drain()
+	if sorted {
+		sort.SliceStable(l, func(i, j int) bool { return l[i].Addr.IP.Compare(l[j].Addr.IP) < 0 })
+	}
+	s := make([]string, len(l))
+	for i, n := range l {
+		if pairs {
+			s[i] = IPTok(n.Addr.IP) + "/" + b01(n.Online)
+		} else {
+			s[i] = ShowNotif(n)
+		}
+	}
+	return strings.Join(s, ",")
 }
